@@ -32,6 +32,9 @@ def shards(tier: str, seed: int):
     for h in HASHES:
         out.append(["nonce", h])
         out.append(["dhbig", h])
+        # key lengths above 256 (groups whose announced key length is padded beyond the size of p: 257, 300 octets; RFC 5114 at 264)
+        out += [["dhsmall", h, kl, 0, 2, 0, 300] for kl in (257, 300)]
+        out.append(["dhbig", h, 264])
     if tier == "quick":
         out += [["dhsmall", "SHA256", kl, 0, 1, 0, 65536] for kl in (2, 4)]
         out += [["dhsmall", h, kl, 1, 2, 0, 4096] for h in HASHES for kl in (2, 4)]
@@ -290,7 +293,8 @@ def run_shard(shard, tier, seed, acc) -> None:
         d = seams.Drbg(("C03big", seed))
         q = int("8CF83642A709A097B447997640129DA299B1A47D1EB3750BA308B0FE64F5FBD3", 16)
         eph = [1, 2, q - 1, 2**511 + 12345, 2**300 + 7, 255, 2**512 - 1] + [int.from_bytes(d.bytes(64), "big") for _ in range(6)]
-        shard_dh(G, shard[1], seed, acc, 256, gkdi.RFC5114_P, gkdi.RFC5114_G, 512, 2048, range(0, 4), eph, "dhbig")
+        kl_big = shard[2] if len(shard) > 2 else 256
+        shard_dh(G, shard[1], seed, acc, kl_big, gkdi.RFC5114_P, gkdi.RFC5114_G, 512, kl_big * 8, range(0, 4 if kl_big == 256 else 2), eph, "dhbig" if kl_big == 256 else f"dhbig{kl_big}")
         acc.sample({"mode": "DH RFC5114", "hash": shard[1], "ephemeral": ["1", "2", "q-1", "2^511+12345", "2^300+7", "255", "2^512-1", "6 x DRBG"]})
     elif kind == "ec":
         _, curve, h, g0, g1, kmax = shard
@@ -316,8 +320,8 @@ def replay(case, seed, acc) -> None:
         shard_nonce(G, case[1], seed, acc)
     elif k in ("dhsmall",):
         shard_dh(G, case[1], seed, acc, case[2], SMALL_P, SMALL_G, 16, case[2] * 8, [case[3]], [int(case[4])], "dhsmall")
-    elif k == "dhbig":
-        shard_dh(G, case[1], seed, acc, 256, gkdi.RFC5114_P, gkdi.RFC5114_G, 512, 2048, [case[3]], [int(case[4])], "dhbig")
+    elif k.startswith("dhbig"):
+        shard_dh(G, case[1], seed, acc, case[2], gkdi.RFC5114_P, gkdi.RFC5114_G, 512, case[2] * 8, [case[3]], [int(case[4])], k)
     elif k == "ec":
         c = ec.CURVES[case[1]]
         kk = int(case[4])
